@@ -4,6 +4,7 @@ import (
 	"go/constant"
 	"go/token"
 	"go/types"
+	"strings"
 
 	"golang.org/x/tools/go/ssa"
 
@@ -719,4 +720,334 @@ func c18GuardExpiryAfterPoolFixup(c *core.Ctx) {
 		}
 	}
 	c.Floor("guard-expiry/sites", n, 2)
+}
+
+// c07NilStaysNil: deleting is writing nil, and "not there" is read as nil: StorageCache.SetState stores the value it was given — the
+// parameter itself, or a copy made under a test of the parameter against nil (an unconditional copy turns the nil an undo writes into an
+// empty value that the readers no longer recognise as absent).
+func c07NilStaysNil(c *core.Ctx) {
+	fn := c.Fn("chain/account.StorageCache.SetState")
+	if len(fn.Params) < 3 {
+		c.Undecided("SetState:shape", "value-flow", fn.Pos(), "SetState(key, value) expected")
+		return
+	}
+	val := fn.Params[2]
+	n := 0
+	for _, b := range fn.Blocks {
+		for _, in := range b.Instrs {
+			mu, ok := in.(*ssa.MapUpdate)
+			if !ok {
+				continue
+			}
+			n++
+			okv := mu.Value == ssa.Value(val)
+			if !okv {
+				for _, t := range fn.Blocks {
+					ifi := ifOf(t)
+					if ifi == nil || !t.Dominates(b) {
+						continue
+					}
+					if bo, isB := ifi.Cond.(*ssa.BinOp); isB && (bo.Op == token.EQL || bo.Op == token.NEQ) &&
+						((bo.X == ssa.Value(val) && core.IsNilConst(bo.Y)) || (bo.Y == ssa.Value(val) && core.IsNilConst(bo.X))) {
+						okv = true
+					}
+				}
+			}
+			c.Check("StorageCache.SetState:stores-the-given-value"+seqSuffix(n), "value-flow", okv, mu.Pos(), "the cache keeps the value it was given (nil stays nil), or copies it under a nil test")
+		}
+	}
+	c.Floor("StorageCache.SetState/stores", n, 2)
+}
+
+// c07SuicideJournalledOnce: undoSuicide can only clear the flag (the log keeps no old flag), so a self-destruct is journalled at most once
+// per account: in opSuicide every SetSuicide is on the not-yet-destroyed edge of GetSuicide() of the same account.
+func c07SuicideJournalledOnce(c *core.Ctx) {
+	fn := c.Fn("chain/vm.opSuicide")
+	get := c.Method("chain/types.AccountAccessor", "GetSuicide")
+	set := c.Method("chain/types.AccountAccessor", "SetSuicide")
+	n := 0
+	for _, s := range core.CallsIn(fn, set) {
+		n++
+		ok := false
+		for _, g := range core.CallsIn(fn, get) {
+			if recvValue(g) != recvValue(s) {
+				continue
+			}
+			if k, _ := core.HeededBefore(g, core.IsTrue, s); k {
+				ok = true
+			}
+		}
+		c.Check("opSuicide:SetSuicide-only-when-not-yet-destroyed"+seqSuffix(n), "guarded-action", ok, s.Pos(), "a second SELFDESTRUCT of the same account journals nothing (the undo of a SuicideLog clears the flag whatever it was)")
+	}
+	c.Floor("opSuicide/SetSuicide", n, 1)
+}
+
+// c19LastSigCheckThenAct: the record of the last signed block only moves forward: in every function that stores into Confirmer.lastSig the
+// stores come after a read of lastSig.Height made in the same function under the same hold of lastSigLock — no unlock of that mutex (other
+// than a deferred one) can lie between the read the comparison uses and the store.
+func c19LastSigCheckThenAct(c *core.Ctx) {
+	const cons = "chain/consensus"
+	lastSig := c.FieldVar(cons+".Confirmer", "lastSig")
+	lockF := c.FieldVar(cons+".Confirmer", "lastSigLock")
+	isLockCall := func(in ssa.Instruction, name string) bool {
+		ci, ok := in.(*ssa.Call)
+		if !ok {
+			return false
+		}
+		o := core.CalleeObj(ci)
+		if o == nil || o.Name() != name || len(ci.Call.Args) == 0 {
+			return false
+		}
+		for v := range core.SliceShallow(ci.Call.Args[0]) {
+			if core.FieldOf(v) == lockF {
+				return true
+			}
+		}
+		return false
+	}
+	n := 0
+	for _, fn := range c.SrcFuncs {
+		if core.RelPkg(fn) != cons || isTestHelper(c, fn) || strings.HasPrefix(fn.Name(), "New") {
+			continue
+		}
+		var stores, loads, unlocks []ssa.Instruction
+		for _, b := range fn.Blocks {
+			for _, in := range b.Instrs {
+				if isLockCall(in, "Unlock") {
+					unlocks = append(unlocks, in)
+				}
+				switch x := in.(type) {
+				case *ssa.Store:
+					if fa, ok := x.Addr.(*ssa.FieldAddr); ok {
+						if base, ok2 := fa.X.(*ssa.FieldAddr); ok2 && core.FieldOf(base) == lastSig {
+							stores = append(stores, x)
+						}
+					}
+				case *ssa.UnOp:
+					if fa, ok := x.X.(*ssa.FieldAddr); ok && x.Op == token.MUL {
+						if base, ok2 := fa.X.(*ssa.FieldAddr); ok2 && core.FieldOf(base) == lastSig {
+							loads = append(loads, x)
+						}
+					}
+				}
+			}
+		}
+		for i, st := range stores {
+			n++
+			ok := false
+			for _, ld := range loads {
+				if !core.Dominates(ld, st) {
+					continue
+				}
+				between := false
+				for _, u := range unlocks {
+					if core.ReachableAfter(ld, u) && core.ReachableAfter(u, st) {
+						between = true
+					}
+				}
+				if !between {
+					ok = true
+				}
+			}
+			c.Check("lastSig:compared-and-written-under-one-hold@"+shortFn(fn)+seqSuffix(i+1), "check-then-act", ok, st.Pos(), "the store into the last-signed record follows a read of the record made in this function with no unlock of lastSigLock in between")
+		}
+	}
+	c.Floor("lastSig/stores", n, 2)
+}
+
+// c20PartialVerdictUsed: the confirm filters answer with the confirms that are good AND an error about the ones that are not (a duplicate
+// is an error); delivery order decides which duplicates a node sees, so the good part must be used whatever the error says: in
+// VerifyAndSeal and insertConfirms every test of the filter's error lies on the empty-list edge of a test of the list's length.
+func c20PartialVerdictUsed(c *core.Ctx) {
+	const cons = "chain/consensus"
+	n := 0
+	for _, e := range []struct{ fn, callee string }{
+		{cons + ".DPoVP.VerifyAndSeal", "VerifyNewConfirms"},
+		{cons + ".DPoVP.insertConfirms", "VerifyConfirmPacket"},
+	} {
+		fn := c.FnOrCaller(e.fn)
+		for _, g := range core.CallsIn(fn, c.Method(cons+".Validator", e.callee)) {
+			n++
+			rv := core.ResultValues(g)
+			ev := core.ErrResult(g)
+			ok := true
+			if ev != nil {
+				for _, t := range core.TestsOf(ev, core.ErrNonNil) {
+					under := false
+					for _, b := range fn.Blocks {
+						ifi := ifOf(b)
+						if ifi == nil {
+							continue
+						}
+						bo, isB := ifi.Cond.(*ssa.BinOp)
+						if !isB || (bo.Op != token.EQL && bo.Op != token.NEQ && bo.Op != token.LEQ && bo.Op != token.GTR) {
+							continue
+						}
+						isLenOfList := func(v ssa.Value) bool {
+							call, isCall := v.(*ssa.Call)
+							if !isCall || core.BuiltinCallName(call) != "len" || len(rv) == 0 || rv[0] == nil {
+								return false
+							}
+							return core.SliceShallow(call.Call.Args[0])[rv[0]]
+						}
+						if !isLenOfList(bo.X) && !isLenOfList(bo.Y) {
+							continue
+						}
+						empty := b.Succs[0] // len == 0 / len <= 0
+						if bo.Op == token.NEQ || bo.Op == token.GTR {
+							empty = b.Succs[1]
+						}
+						if (empty == t.If.Block() || empty.Dominates(t.If.Block())) && len(empty.Preds) == 1 {
+							under = true
+						}
+					}
+					if !under {
+						ok = false
+					}
+				}
+			}
+			c.Check(shortFn(fn)+":"+e.callee+"/good-confirms-used-whatever-the-error", "partial-verdict", ok, g.Pos(), "the error of %s (it also reports mere duplicates) decides nothing unless the returned list is empty", e.callee)
+		}
+	}
+	c.Floor("confirm-filter/calls", n, 2)
+}
+
+// c20NeedConfirmFromStable: a node whose blocks became stable through other deputies' confirms goes on signing: needConfirm measures a
+// block against the later of its own last signature and the latest stable block — the hash it compares the parent with draws on both.
+func c20NeedConfirmFromStable(c *core.Ctx) {
+	const cons = "chain/consensus"
+	fn := c.Fn(cons + ".Confirmer.needConfirm")
+	lastSig := c.FieldVar(cons+".Confirmer", "lastSig")
+	load := c.Method(cons+".StableBlockStore", "LoadLatestBlock")
+	parentHash := c.Method("chain/types.Block", "ParentHash")
+	ok, n := false, 0
+	for _, b := range fn.Blocks {
+		for _, in := range b.Instrs {
+			bo, isB := in.(*ssa.BinOp)
+			if !isB || (bo.Op != token.EQL && bo.Op != token.NEQ) {
+				continue
+			}
+			var other ssa.Value
+			if _, is := isCallOf(bo.X, parentHash); is {
+				other = bo.Y
+			} else if _, is := isCallOf(bo.Y, parentHash); is {
+				other = bo.X
+			}
+			if other == nil {
+				continue
+			}
+			n++
+			sl := core.Slice(other)
+			fromSig, fromStable := false, false
+			for v := range sl {
+				if fa, isFA := v.(*ssa.FieldAddr); isFA {
+					if base, ok2 := fa.X.(*ssa.FieldAddr); ok2 && core.FieldOf(base) == lastSig {
+						fromSig = true
+					}
+				}
+				if _, is := isCallOf(v, load); is {
+					fromStable = true
+				}
+			}
+			if fromSig && fromStable {
+				ok = true
+			}
+		}
+	}
+	c.Check("needConfirm:parent-compared-with-later-of(lastSig,stable)", "value-flow", ok && n >= 1, fn.Pos(), "the hash the block's parent is compared with is the last signed block's or, when that is behind, the latest stable block's")
+}
+
+// c17BranchWritesOnCopies: a trie never writes into a branch node another trie value may hold (SecureTrie.Copy and struct copies share every
+// node that was not replaced): in package store/trie every store into an element of fullNode.Children goes to a node made in this
+// function — the result of fullNode.copy() or a new node — unconditionally (a copy made only for "clean" nodes shares the dirty ones).
+func c17BranchWritesOnCopies(c *core.Ctx) {
+	kids := c.FieldVar("store/trie.fullNode", "Children")
+	cp := c.Method("store/trie.fullNode", "copy")
+	n := 0
+	for _, fn := range c.SrcFuncs {
+		if core.RelPkg(fn) != "store/trie" || isTestHelper(c, fn) {
+			continue
+		}
+		seq := 0
+		for _, b := range fn.Blocks {
+			for _, in := range b.Instrs {
+				st, ok := in.(*ssa.Store)
+				if !ok {
+					continue
+				}
+				ia, ok := st.Addr.(*ssa.IndexAddr)
+				if !ok {
+					continue
+				}
+				fa, ok := ia.X.(*ssa.FieldAddr)
+				if !ok || core.FieldOf(fa) != kids {
+					continue
+				}
+				n++
+				seq++
+				owner := fa.X
+				fresh := false
+				switch x := owner.(type) {
+				case *ssa.Alloc:
+					fresh = true
+				case *ssa.Call:
+					_, fresh = isCallOf(x, cp)
+				}
+				c.Check("fullNode.Children[i]←·@"+shortFn(fn)+seqSuffix(seq), "cow-ownership", fresh, st.Pos(), "the branch node written to was made here (copy() or a new node), unconditionally")
+			}
+		}
+	}
+	c.Floor("fullNode.Children/element-stores", n, 4)
+}
+
+// c14TypeCacheLocked: the codec a type is encoded and decoded with is complete when anybody gets it: the generator publishes an empty
+// placeholder first (its recursion guard) and fills it afterwards, which is safe only because every access to the cache — the lookups
+// included — holds typeCacheMutex. A lock-free lookup can hand out the placeholder.
+func c14TypeCacheLocked(c *core.Ctx) {
+	la := lockAnalysis(c)
+	g := c.Global("common/rlp.typeCache")
+	const key = "rlp.typeCacheMutex"
+	n := 0
+	seq := map[string]int{}
+	for _, fn := range c.SrcFuncs {
+		if core.RelPkg(fn) != "common/rlp" || isTestHelper(c, fn) || fn.Name() == "init" {
+			continue
+		}
+		for _, b := range fn.Blocks {
+			for _, in := range b.Instrs {
+				uses := false
+				for _, op := range in.Operands(nil) {
+					if op != nil && *op != nil {
+						if gl, ok := (*op).(*ssa.Global); ok && gl.Object() == g {
+							uses = true
+						}
+					}
+				}
+				if !uses {
+					continue
+				}
+				n++
+				mode := core.ReadHeld
+				if ld, ok := in.(*ssa.UnOp); ok {
+					if refs := ld.Referrers(); refs != nil {
+						for _, r := range *refs {
+							switch x := r.(type) {
+							case *ssa.MapUpdate:
+								mode = core.WriteHeld
+							case *ssa.Call:
+								if core.BuiltinCallName(x) == "delete" {
+									mode = core.WriteHeld
+								}
+							}
+						}
+					}
+				}
+				ok, why := la.Held(in, key, mode)
+				k := "typeCache@" + shortFn(fn)
+				seq[k]++
+				c.Check(k+seqSuffix(seq[k]), "lockset", ok, in.Pos(), "access to the type-info cache in %s must hold %s: %s", shortFn(fn), key, orOK(why))
+			}
+		}
+	}
+	c.Floor("typeCache/accesses", n, 4)
 }
